@@ -743,3 +743,58 @@ Lemma plan_no_advance_refuted :
   plan_ok [(0, 8); (2, 4); (0, 1)] = false /\
   run_plan [(0, 8); (2, 4); (0, 1)] 4 [1; 2; 3; 4]%N [5; 6; 7; 8]%N <> ([5; 6; 7; 8]%N, [1; 2; 3; 4]%N).
 Proof. split; [reflexivity|]. vm_compute. discriminate. Qed.
+
+(* ------------------------------------------------------------------ hash over histories of one object *)
+(* What a Hash instance written in C can see when it is called: the object's current value, the
+   address of its buffer, and whatever static state the instance keeps between calls.  A history is
+   the sequence of calls: (address, value at that moment), with arbitrary mutations (and frees /
+   reallocations, other objects) in between. *)
+Record hcall := mk_hcall { hc_addr : N; hc_val : value }.
+Definition hinst (S : Type) := S -> hcall -> N * S.
+
+Fixpoint run_hist (S : Type) (f : hinst S) (st : S) (calls : list hcall) : list N :=
+  match calls with
+  | [] => []
+  | c :: r => let '(h, st') := f st c in h :: run_hist S f st' r
+  end.
+
+(* the instances of the source (Generated.hash_instances_stateless): no static state, the value only *)
+Definition stateless_inst (hd : list N -> N) (fs : nat) : hinst unit :=
+  fun _ c => (v_hash hd fs (hc_val c), tt).
+
+(* seeded C16-r6-2: the last hash memoised by buffer address, never invalidated *)
+Definition memo_inst (hd : list N -> N) (fs : nat) : hinst (option (N * N)) :=
+  fun st c =>
+    match st with
+    | Some (a, h) => if (a =? hc_addr c)%N then (h, st)
+                     else let h' := v_hash hd fs (hc_val c) in (h', Some (hc_addr c, h'))
+    | None => let h' := v_hash hd fs (hc_val c) in (h', Some (hc_addr c, h'))
+    end.
+
+(* every call returns the hash of the value the object has AT THAT CALL: nothing else — not the
+   address, not earlier values, not which other objects were hashed in between — matters *)
+Theorem stateless_history hd fs : forall calls,
+  run_hist unit (stateless_inst hd fs) tt calls = map (fun c => v_hash hd fs (hc_val c)) calls.
+Proof. induction calls as [|c r IH]; simpl; [reflexivity|]. rewrite IH. reflexivity. Qed.
+
+(* so two calls, anywhere in any two histories, on eq values return the same hash *)
+Theorem history_eq_hash hd tl fs : fh_normalising fs = true ->
+  forall calls1 calls2 i j c1 c2,
+  nth_error calls1 i = Some c1 -> nth_error calls2 j = Some c2 ->
+  v_wf (hc_val c1) = true -> v_wf (hc_val c2) = true -> v_cmp tl (hc_val c1) (hc_val c2) = Some 0%Z ->
+  nth_error (run_hist unit (stateless_inst hd fs) tt calls1) i =
+  nth_error (run_hist unit (stateless_inst hd fs) tt calls2) j.
+Proof.
+  intros Hfs calls1 calls2 i j c1 c2 E1 E2 W1 W2 C.
+  rewrite !stateless_history.
+  rewrite (map_nth_error _ _ _ E1), (map_nth_error _ _ _ E2).
+  f_equal. apply (v_eq_hash hd tl fs Hfs); assumption.
+Qed.
+
+(* the memoising instance violates it: same address, value changed in place *)
+Lemma memo_history_refuted :
+  exists calls, run_hist _ (memo_inst (fun d => N.of_nat (length d)) 1) None calls
+                <> map (fun c => v_hash (fun d => N.of_nat (length d)) 1 (hc_val c)) calls.
+Proof.
+  exists [mk_hcall 4096 (VStr [72; 105]%N); mk_hcall 4096 (VStr [72]%N)]. vm_compute. discriminate.
+Qed.
